@@ -75,11 +75,10 @@ func (r *Run) unitsFor() []string {
 func (r *Run) Execute() int {
 	v := r.L.v
 	opts := SolverOpts{WorkDir: filepath.Join(verifDir, ".work", fmt.Sprint(os.Getpid())), TimeoutS: 10, Seed: r.Seed, Models: true, Parallel: 10}
-	fuel := 2
+	fuel := 1
 	if r.Tier == "thorough" {
 		opts.TimeoutS = 60
 		opts.Confirm = true
-		fuel = 3
 	}
 	v.fuel = fuel
 	defer os.RemoveAll(opts.WorkDir)
@@ -195,7 +194,10 @@ func (r *Run) Execute() int {
 		}
 		pkgRes = append(pkgRes, &ObResult{Name: po.Name, Kind: "package", Props: po.Props, Status: st, Solver: "syntactic", Src: po.Desc, Detail: po.Detail, Queries: 1})
 	}
-	tableRes := r.tableObligations()
+	var tableRes []*ObResult
+	if r.Only == "" && r.ObFilter == "" {
+		tableRes = r.tableObligations()
+	}
 
 	var results []*ObResult
 	for _, o := range obs {
